@@ -94,6 +94,10 @@ pub fn kf2_signature(r: &astgen::Rendered, keep: &[bool]) -> bool {
 
 pub fn oracle(c: &HistoryCase, obs: &mut Obs, kf2: bool) -> Verdict {
     let r = astgen::render(&c.doc, &c.spell);
+    if let Err(why) = astgen::in_domain(&r, &opts().domain()) {
+        obs.excluded(why);
+        return Verdict::Pass;
+    }
     if kf2 && c.chain.iter().any(|a| kf2_signature(&r, &astgen::truth(&r, a).keep)) {
         obs.excluded("KF2:inline-end-followed-by-removed-line");
         return Verdict::Pass;
@@ -193,6 +197,30 @@ pub fn check(ctx: &mut Ctx) {
     ctx.replay_corpus(replay);
     ctx.run_known_witnesses(|_sub, case, obs| replay_case::<HistoryCase, _>(case, obs, |c, obs| oracle(c, obs, false)));
     ctx.random("histories", 420, 150_000, 1_500_000, gen, move |c, obs| oracle(c, obs, kf2));
+    ctx.reshrink::<HistoryCase, _, _>("histories", move |c, obs| oracle(c, obs, kf2), |c, fails| {
+        // fewer steps first, then a smaller document
+        let mut cur = c.clone();
+        loop {
+            let mut progressed = false;
+            for i in 0..cur.chain.len() {
+                if cur.chain.len() <= 1 {
+                    break;
+                }
+                let mut cand = cur.clone();
+                cand.chain.remove(i);
+                if fails(&cand) {
+                    cur = cand;
+                    progressed = true;
+                    break;
+                }
+            }
+            if !progressed {
+                break;
+            }
+        }
+        let doc = astgen::minimize_doc(&cur.doc, |d| fails(&HistoryCase { doc: d.clone(), spell: cur.spell.clone(), chain: cur.chain.clone() }));
+        HistoryCase { doc, spell: cur.spell.clone(), chain: cur.chain.clone() }
+    });
 }
 
 pub fn replay(_sub: &str, case: &Value, obs: &mut Obs) -> Result<Verdict, String> {
